@@ -22,13 +22,25 @@ pub(crate) struct SymbolTypes {
 }
 
 pub(crate) fn to_snake_case<S: AsRef<str>>(s: S) -> String {
-    s.as_ref()
-        .with_boundaries(&[Boundary::LowerUpper])
-        .to_case(Case::Snake)
+    identifier_start(
+        s.as_ref()
+            .with_boundaries(&[Boundary::LowerUpper])
+            .to_case(Case::Snake),
+    )
 }
 
 pub(crate) fn to_pascal_case<S: AsRef<str>>(s: S) -> String {
-    s.as_ref().to_case(Case::Pascal)
+    identifier_start(s.as_ref().to_case(Case::Pascal))
+}
+
+/// Case conversion drops leading underscores: `_1` would become `1` which
+/// can't start an identifier.
+fn identifier_start(name: String) -> String {
+    if name.starts_with(|c: char| c.is_ascii_digit()) {
+        format!("_{name}")
+    } else {
+        name
+    }
 }
 
 pub(crate) fn has_empty_type_name<S: AsRef<str>>(type_name: S) -> String {
